@@ -44,8 +44,25 @@ func init() {
 			r := env.Rand
 			var res []core.Case
 			methods := []string{"MUS", "MUSDeletion", "MUSInsertion", "MUSMaxSat"}
-			for i := 0; i < env.Pick(600, 8000); i++ {
+			for i := 0; i < env.Pick(800, 10000); i++ {
 				n, clauses := unsatBiasedCNF(r, 5)
+				if i%3 == 0 { // larger cores: 3-SAT above the threshold with implications and a fact
+					n = 6 + r.Intn(2)
+					clauses = gen.RandKSAT(r, n, int(4.6*float64(n))+r.Intn(n), 3)
+					clauses = append(clauses, gen.RandKSAT(r, n, 1+r.Intn(4), 2)...)
+					if r.Intn(3) > 0 {
+						clauses = append(clauses, []int{gen.RandLit(r, n)})
+					}
+					clauses = gen.Shuffle(r, clauses)
+				}
+				if i%7 == 0 && len(clauses) > 0 { // repeated / complementary literals inside a clause
+					j := r.Intn(len(clauses))
+					x := clauses[j][r.Intn(len(clauses[j]))]
+					if r.Intn(4) == 0 {
+						x = -x
+					}
+					clauses[j] = append(clauses[j], x)
+				}
 				var ev []gen.M
 				for _, m := range methods {
 					ev = append(ev, gen.M{"op": "mus", "method": m})
@@ -91,6 +108,10 @@ func init() {
 				var clauses [][]int
 				if r.Intn(2) == 0 {
 					n, clauses = unsatBiasedCNF(r, 5)
+					if r.Intn(5) == 0 && len(clauses) > 0 { // a repeated literal inside a clause
+						j := r.Intn(len(clauses))
+						clauses[j] = append(clauses[j], clauses[j][r.Intn(len(clauses[j]))])
+					}
 				} else { // larger, near the threshold: real certificates with several lines
 					n = 5 + r.Intn(4)
 					clauses = gen.RandKSAT(r, n, int(4.5*float64(n)), 3)
